@@ -136,6 +136,8 @@ Proof.
   - destruct o; try (inv_ok H0; reflexivity); inv_ok H0; try (inv_ok H1; reflexivity); inv_ok H1; inv_ok H2; reflexivity.
   - inv_ok H0. inv_ok H1. reflexivity.
   - inv_ok H0. inv_ok H1. inv_ok H2. reflexivity.
+  - (* TRange: the arm of fix 7bf4e4f only fires at array types *)
+    match goal with H : context [TRange _ _ ?u] |- _ => destruct u end; inv_ok H0; reflexivity.
 Qed.
 
 Lemma check_type_bool f e e' : check_type f e CBool = COk e' -> ty_of e = CBool.
